@@ -1,4 +1,5 @@
 import Panacea.Model.Keystore
+import Panacea.Generated.Facts
 /-!
 # C20 — Concurrent readers see committed snapshots; shared code is race-free  (partial)
 
@@ -10,6 +11,10 @@ code by the `kslock` stream's watchdog before the repair (F5).
 
 **Proved in `Properties/C10`/`App`:** queries are evaluated on the committed state of a height and never
 see the working state of the block being executed.
+
+**Known finding F16 (dependency code):** a *listing* query at the latest height can see the next height while
+that height is being committed (iavl fast-node index); modelled below (`listing_at_latest_sees_next_height`,
+`listing_stable_without_fast_index`) and reproduced on the real application by the `conc` stream.
 
 **Cannot be exhibited by any model here:** data races in Go memory (validation, sign-bytes and query code
 share no mutable state: see the fact table of `Properties/C09`), and baseapp's actual snapshotting; the
@@ -154,21 +159,17 @@ theorem good_preserved (s s' : Sys) (i : Nat) (hg : ∀ t ∈ s, Good t) (h : st
       · exact hg u hu
       · exact good_step s t u (hg t (List.mem_of_getElem? hi)) hs
 
-/-- the repaired key-store methods only run well-bracketed, non-nesting lock programs, so any number of
-concurrent `Save` / `Load` / `LoadByAddress` calls starts in a good state … -/
-theorem keystore_threads_good (progs : List (List LockOp))
-    (h : ∀ p ∈ progs, p = progSave ∨ p = progLoad ∨ p = progLoadByAddress) :
+/-- threads that run well-bracketed, non-nesting lock programs start in a good state … -/
+theorem wb_threads_good (progs : List (List LockOp)) (h : ∀ p ∈ progs, wb p = true) :
     ∀ t ∈ progs.map (fun p => ({ prog := p } : Thread)), Good t := by
   intro t ht
   obtain ⟨p, hp, rfl⟩ := List.mem_map.mp ht
   left
-  refine ⟨rfl, rfl, ?_, fun hw => by simp at hw⟩
-  rcases h p hp with rfl | rfl | rfl <;> decide
+  exact ⟨rfl, rfl, h p hp, fun hw => by simp at hw⟩
 
-/-- … and therefore **no schedule of any number of key-store calls can deadlock** (every reachable state
-is good by `good_preserved`, every good state has an enabled thread or is finished by `no_deadlock`). -/
-theorem keystore_never_deadlocks (progs : List (List LockOp))
-    (h : ∀ p ∈ progs, p = progSave ∨ p = progLoad ∨ p = progLoadByAddress) (sched : List Nat) :
+/-- … and **no schedule of any number of such threads can deadlock** (every reachable state is good by
+`good_preserved`, every good state has an enabled thread or is finished by `no_deadlock`). -/
+theorem wb_never_deadlocks (progs : List (List LockOp)) (h : ∀ p ∈ progs, wb p = true) (sched : List Nat) :
     deadlocked (runSched (progs.map fun p => ({ prog := p } : Thread)) sched) = false := by
   have key : ∀ (sched : List Nat) (st : Sys), (∀ t ∈ st, Good t) → ∀ t ∈ runSched st sched, Good t := by
     intro sched
@@ -180,7 +181,88 @@ theorem keystore_never_deadlocks (progs : List (List LockOp))
       cases hs : stepThread st i with
       | none => simpa [hs] using ih st hg
       | some st' => simpa [hs] using ih st' (good_preserved st st' i hg hs)
-  exact no_deadlock _ (key sched _ (keystore_threads_good progs h))
+  exact no_deadlock _ (key sched _ (wb_threads_good progs h))
+
+/-! ### The lock programs of the real key store, regenerated from the source on every run
+
+`Generated.lockPaths` lists, for every exported `KeyStore` method, the mutex operations on **every control
+path** (early returns, both branches of every `if`, loops zero times / once, calls to other methods of the
+type expanded path by path, deferred unlocks at the end). -/
+
+def parseOp : String → Option LockOp
+  | "Lock" => some .lock
+  | "Unlock" => some .unlock
+  | "RLock" => some .rlock
+  | "RUnlock" => some .runlock
+  | _ => none
+
+/-- all lock programs the source can run (`none` if a token is not a mutex operation) -/
+def sourcePrograms : Option (List (List LockOp)) :=
+  (Generated.lockPaths.flatMap (·.2)).mapM fun p => p.mapM parseOp
+
+/-- **Every control path of every exported key-store method is well-bracketed and never acquires the mutex
+while holding it** — re-proved against the regenerated table on every run. -/
+theorem source_paths_well_bracketed : ∃ ps, sourcePrograms = some ps ∧ ∀ p ∈ ps, wb p = true := by
+  refine ⟨_, rfl, ?_⟩
+  decide
+
+/-- the methods that exist, and that the table is not empty (non-vacuity of the statement above) -/
+theorem source_methods : Generated.lockPaths.map (·.1) = ["Load", "LoadByAddress", "Save"] ∧
+    progLoadByAddress ∈ (sourcePrograms.getD []) ∧ progSave ∈ (sourcePrograms.getD []) := by decide
+
+/-- **No schedule of any number of concurrent key-store calls — each following any control path of any
+exported method — can deadlock.** -/
+theorem keystore_never_deadlocks (ps progs : List (List LockOp)) (hps : sourcePrograms = some ps)
+    (h : ∀ p ∈ progs, p ∈ ps) (sched : List Nat) :
+    deadlocked (runSched (progs.map fun p => ({ prog := p } : Thread)) sched) = false := by
+  obtain ⟨ps', hps', hwb⟩ := source_paths_well_bracketed
+  rw [hps] at hps'
+  cases hps'
+  exact wb_never_deadlocks progs (fun p hp => hwb p (h p hp)) sched
+
+/-- a path that returns while still holding the read lock (what a misplaced `RUnlock` after an early
+`return` produces) is not well-bracketed, and one such thread plus a saver is a deadlock -/
+example : wb [.rlock] = false := by decide
+example : (((stepThread [{ prog := [.rlock] }, { prog := progSave }] 0).bind fun s => stepThread s 1).map deadlocked) = some true := by
+  decide
+
+
+/-! ## Listing queries and IAVL's fast-node index (known finding F16)
+
+The part of the store that is logic: committed snapshots by version, the *fast index* (a copy of the latest
+state, shared by all readers) and the latest version number.  `SaveVersion` of iavl v0.20.1 writes the new
+nodes and the index first and advances the latest version afterwards — two steps a concurrent reader can fall
+between.  An iterator over the tree of version `v` reads the index iff `v` is (still) the latest version. -/
+
+structure Tree (S : Type) where
+  versions : List S        -- snapshot of version `i+1` at index `i`
+  fast : S                 -- fast-node index: the latest written state
+  latest : Nat             -- what `ndb.getLatestVersion` answers
+
+/-- `SaveVersion`, first half: nodes of the new version and the fast index are written -/
+def saveWrite {S} (t : Tree S) (s : S) : Tree S := { t with versions := t.versions ++ [s], fast := s }
+/-- `SaveVersion`, second half: the latest version advances -/
+def saveBump {S} (t : Tree S) : Tree S := { t with latest := t.latest + 1 }
+
+/-- what an iterator created on the immutable tree of version `v` reads -/
+def iterAt {S} (useFast : Bool) (t : Tree S) (v : Nat) : Option S :=
+  if useFast && v == t.latest then some t.fast else t.versions[v - 1]?
+
+/-- **Without the fast index a listing at a committed height is unaffected by any later commit step.** -/
+theorem listing_stable_without_fast_index {S} (t : Tree S) (s : S) (v : Nat) (hv : v - 1 < t.versions.length) :
+    iterAt false (saveWrite t s) v = iterAt false t v ∧ iterAt false (saveBump t) v = iterAt false t v := by
+  simp [iterAt, saveWrite, saveBump, List.getElem?_append_left hv]
+
+/-- **With it (iavl v0.20.1 as used by this application), a listing asked for the latest height `H` between
+the two halves of the commit of `H+1` returns the state of `H+1`.** -/
+theorem listing_at_latest_sees_next_height {S} (t : Tree S) (s : S) :
+    iterAt true (saveWrite t s) t.latest = some s := by
+  simp [iterAt, saveWrite]
+
+/-- concrete instance: versions 1, 2 committed (states 10, 20), commit of version 3 (state 30) half done:
+a listing "at height 2" answers 30, and after the commit has finished it answers 20 again -/
+example : iterAt true (saveWrite { versions := [10, 20], fast := 20, latest := 2 } 30) 2 = some 30 ∧
+    iterAt true (saveBump (saveWrite { versions := [10, 20], fast := 20, latest := 2 } 30)) 2 = some 20 := by decide
 
 /-! ## The unrepaired `LoadByAddress` deadlocks (F5): three-step witness -/
 
